@@ -117,8 +117,17 @@ func (rcSuite) Gen(r *rand.Rand, i int) Case {
 		case x < 96:
 			c.Ops = append(c.Ops, "total")
 		default:
-			c.Ops = append(c.Ops, "json")
-			c.Tags = append(c.Tags, "json")
+			switch r.Intn(3) {
+			case 0:
+				c.Ops = append(c.Ops, "json")
+				c.Tags = append(c.Tags, "json")
+			case 1:
+				c.Ops = append(c.Ops, "snap") // keep a JSON snapshot …
+				c.Tags = append(c.Tags, "snap")
+			default:
+				c.Ops = append(c.Ops, "restore") // … and restore it into the LIVE counter, which may have moved on since
+				c.Tags = append(c.Tags, "restore")
+			}
 		}
 	}
 	if n == 0 {
@@ -152,6 +161,7 @@ func (rcSuite) Run(h map[string]string, ops []string) []string {
 	w := atoi(h["w"])
 	ctr := faststats.NewRollingCounter(time.Duration(w), n, origin)
 	c := &ctr
+	var snapshot []byte
 	out := make([]string, len(ops))
 	for i, op := range ops {
 		out[i] = func() (res string) {
@@ -198,6 +208,21 @@ func (rcSuite) Run(h map[string]string, ops []string) []string {
 					return "json-error"
 				}
 				c = &fresh
+				return "ok"
+			case "snap":
+				b, err := json.Marshal(c)
+				if err != nil {
+					return "json-error"
+				}
+				snapshot = b
+				return "ok"
+			case "restore":
+				if snapshot == nil {
+					return "ok"
+				}
+				if err := json.Unmarshal(snapshot, c); err != nil {
+					return "json-error"
+				}
 				return "ok"
 			}
 			return "bad-op"
